@@ -3,6 +3,7 @@ real library.  The recorder turns every call into a trace event; TraceEdit.tla j
 import random
 
 from model import build, canon_desc
+from project import node_of
 
 DUR = {"p": 1.0, "q": 2.5, "s": 0.5, "N/A": 1.0}
 
@@ -16,7 +17,7 @@ def _phase_conf(s, ref, conf):
         return ("p",)
     phs = list(conf["v"])
     try:
-        idx = s._get_index(ref)
+        idx = node_of(s, ref)
         cls = type(s._g[idx]).__name__ if idx != -1 else ""
     except Exception:
         cls = ""
